@@ -322,8 +322,8 @@ def _pre_scan(ctx, prog, R):
         cn = k7.Canon(prog, caller)
         size, idx = cn.op(t["args"][1], b), cn.op(t["args"][2], b)
         ok = False
-        for (sb, t_true, t_false, c) in k7.conditions(prog, caller):
-            if c[0] == "Lt" and k7.same(c[1], idx) and k7.same(c[2], size) and caller.dominates(t_true, b):
+        for (sb, tgt, X, Y) in k7.lt_facts(prog, caller):
+            if k7.same(X, idx) and k7.same(Y, size) and caller.dominates(tgt, b) and all(p_ == sb for p_ in caller.preds()[tgt]):
                 ok = True
         ctx.check(ok, "triage-precondition", "scan-callers-guarded:" + short(caller.id),
                   "the bucket scanner is called without a dominating `idx < buckets_size` test", where=where(caller, b))
